@@ -220,6 +220,9 @@ def run_case(w, base, idx, mods, order, forms, settings):
         top = loaded[idx % len(loaded)]
         text += "from %s import x_%s as top_y\nimport %s as top_alias\nfrom %s import x_%s\nprint 'top-imports {top_y} {x_%s}'\n" % (top, top, top, top, top, top)
         rt.out.append("top-imports val_%s val_%s" % (top, top))
+        # the same with string items
+        text += "from %s import 'x_%s' as top_ys\nimport '%s' as top_alias_s\nprint 'top-imports-str {top_ys} {top_alias_s.x_%s}'\n" % (top, top, top, top)
+        rt.out.append("top-imports-str val_%s val_%s" % (top, top))
     path = os.path.join(d, "root.koto")
     open(path, "w").write(text)
     r = w.exec(text, timeout=30, limit_ms=8000, path=path, run_import_tests=settings["run_import_tests"], export_top=settings["export_top"], want_exports=True)
@@ -229,6 +232,7 @@ def run_case(w, base, idx, mods, order, forms, settings):
         if top:
             want_exports["top_y"] = "val_" + top
             want_exports["x_" + top] = "val_" + top
+            want_exports["top_ys"] = "val_" + top
     got_out = r.get("stdout", "").split("\n")
     if got_out and got_out[-1] == "":
         got_out.pop()
@@ -246,6 +250,8 @@ def run_case(w, base, idx, mods, order, forms, settings):
             problems.append("export %s: host sees %r, expected %r" % (k, ex.get(k), v))
     if settings["export_top"] and top and "top_alias" not in ex:
         problems.append("export top_alias (import %s as top_alias at the top level) is missing; the host sees %s" % (top, sorted(ex)[:8]))
+    if settings["export_top"] and top and "top_alias_s" not in ex:
+        problems.append("export top_alias_s (import '%s' as top_alias_s at the top level) is missing; the host sees %s" % (top, sorted(ex)[:8]))
     if not settings["export_top"]:
         extra = [k for k in ex if k not in want_exports]
         if extra:
@@ -308,6 +314,46 @@ def run_history(w, base, idx, rng):
     shutil.rmtree(d, ignore_errors=True)
     return problems, case
 
+NAME_POOL = ["data", "data.v2", "data.v2.x", "data.koto", "a-b", "a b", "dät", "x.y", "x", ".hidden", "UPPER", "upper", "v1.0", "v1"]
+def run_names(w, base, idx, rng):
+    """Module names that are not identifiers (string imports): `name` resolves to name.koto, then name/main.koto - the whole
+    name counts, whatever characters it contains; a name without its own file is missing even if a file exists for a prefix."""
+    d = os.path.join(base, "n%d" % idx)
+    shutil.rmtree(d, ignore_errors=True)
+    os.makedirs(d)
+    present = {}
+    for nm in rng.sample(NAME_POOL, rng.randint(2, 6)):
+        kind = rng.choice(["file", "dir", "both"])
+        present[nm] = kind
+        if kind in ("file", "both") and not os.path.isdir(os.path.join(d, nm + ".koto")):
+            open(os.path.join(d, nm + ".koto"), "w").write("export who = 'file:%s'\n" % nm)
+        if kind in ("dir", "both") and not os.path.isfile(os.path.join(d, nm)):
+            os.makedirs(os.path.join(d, nm), exist_ok=True)
+            open(os.path.join(d, nm, "main.koto"), "w").write("export who = 'dir:%s'\n" % nm)
+    asked = rng.sample(NAME_POOL, rng.randint(3, 8))
+    lines, want = [], []
+    for k, nm in enumerate(asked):
+        lines += ["r%d = try" % k, "  from '%s' import who" % nm, "  who", "catch _", "  'missing'", "print '%s -> {r%d}'" % (nm, k)]
+        # (directories named like files: `data.koto/main.koto` is what `data.koto` means when there is no data.koto.koto)
+        if os.path.isfile(os.path.join(d, nm + ".koto")): want.append("%s -> file:%s" % (nm, nm))
+        elif os.path.isfile(os.path.join(d, nm, "main.koto")): want.append("%s -> dir:%s" % (nm, nm))
+        else: want.append("%s -> missing" % nm)
+    text = "\n".join(lines) + "\n"
+    path = os.path.join(d, "root.koto")
+    open(path, "w").write(text)
+    r = w.exec(text, timeout=30, limit_ms=8000, path=path)
+    out = (r.get("stdout") or "").split("\n")
+    if out and out[-1] == "": out.pop()
+    problems = []
+    if r.get("panic"):
+        problems.append("panic: %s" % r["panic"].get("message", "")[:100])
+    if out != want:
+        first = next((i for i, (a, b) in enumerate(zip(out, want)) if a != b), min(len(out), len(want)))
+        problems.append("module name resolution: real %r, expected %r (files present: %s)" % (out[first] if first < len(out) else None, want[first] if first < len(want) else None, sorted(present.items())))
+    case = {"present": present, "asked": asked, "expected": want, "real": out, "root": text} if problems else None
+    shutil.rmtree(d, ignore_errors=True)
+    return problems, case
+
 def _shard(shard, n, tier, seed):
     w = Worker()
     base = os.path.join(VERIF, "scratch", "c18", "%d_%d_%d" % (os.getpid(), seed, shard))
@@ -331,6 +377,11 @@ def _shard(shard, n, tier, seed):
             rep["histories"] += 1
             if problems:
                 rep["violations"].append({"key": "module-history:%s" % sha(repr(case)), "summary": "re-import history: %s" % "; ".join(problems)[:300], "case": case})
+        for h in range(shard, 400 if tier == "quick" else 6000, n):
+            problems, case = run_names(w, base, h, random.Random(seed * 1000033 + h))
+            rep["name_cases"] = rep.get("name_cases", 0) + 1
+            if problems:
+                rep["violations"].append({"key": "module-names:%s" % sha(repr(case)), "summary": "; ".join(problems)[:400], "case": case})
     finally:
         w.close()
         shutil.rmtree(base, ignore_errors=True)
@@ -346,14 +397,15 @@ def run(tier, seed):
         chk.merge_shard(s)
         if "harness_error" in s:
             continue
+        st["name_cases"] = st.get("name_cases", 0) + s.get("name_cases", 0)
         st["graphs"] += s["graphs"]; st["histories"] += s["histories"]; st["marker_lines_compared"] += s["trace_lines"]; st["graphs_with_a_failing_module"] += s["failing_module"]
         for k, v in s["by_size"].items():
             st["graphs_by_module_count"][k] = st["graphs_by_module_count"].get(k, 0) + v
         if s["samples"] and not cov["samples"]:
             cov["samples"] = s["samples"]
     cov["streams"]["module-graphs"] = st
-    cov["evaluations"] = st["graphs"] + st["histories"]
-    cov["distinct_nontrivial"] = st["graphs"] + st["histories"]
+    cov["evaluations"] = st["graphs"] + st["histories"] + st.get("name_cases", 0)
+    cov["distinct_nontrivial"] = st["graphs"] + st["histories"] + st.get("name_cases", 0)
     # witness of F-M1 (needs a module file): the second `import bad` in the same scope after a failed one
     w = Worker()
     d = os.path.join(VERIF, "scratch", "c18", "witness_%d" % os.getpid())
